@@ -83,11 +83,11 @@ class Gen:
         t = self.r.choice(self.top_lits)
         return lit(t, self.descr_for(t))
 
-    def new_cmd(self):
+    def new_cmd(self, in_word=False):
         i = self.ncmd
         self.ncmd += 1
         if self.cmd_factory:
-            return cmd(self.cmd_factory(self.r, i))
+            return cmd(self.cmd_factory(self.r, i, in_word))
         return cmd(self.r.choice(CMD_BODIES))
 
     def leaf(self, in_def_for_word=False):
@@ -122,7 +122,7 @@ class Gen:
         if kind < 0.40:
             tail = alt(*[vlit(v) for v in vals]) if len(vals) > 1 else opt(vlit(vals[0]))
         elif kind < 0.55 and self.cmds:
-            tail = self.new_cmd()
+            tail = self.new_cmd(in_word=True)
         elif kind < 0.70 and self.stars:
             n = r.choice(UNDEF_NAMES)
             self.undefined_used.add(n)
@@ -215,7 +215,7 @@ class Gen:
                 # a definition usable inside words: alternatives of literals or a command
                 vals = r.sample(WORD_VALUES, r.randint(1, 3))
                 if self.cmds and r.random() < 0.3:
-                    body = self.new_cmd()
+                    body = self.new_cmd(in_word=True)
                 else:
                     body = alt(*[lit(v, self.descr_of.setdefault(v, None)) for v in vals])
                 self.def_word_safe[name] = True
